@@ -53,7 +53,7 @@ func registryPipes(cl *cluster) []int {
 func serverTasks(cl *cluster) []*sim.Task {
 	var ts []*sim.Task
 	for _, t := range cl.S.Parked() {
-		if t.Name == "life" || strings.HasPrefix(t.Name, "tlscli") {
+		if t.Name == "life" || cl.harnessTask[t.Name] {
 			continue
 		}
 		ts = append(ts, t)
